@@ -6,7 +6,7 @@ import numpy as np
 import sysgen
 from c09 import _signal
 
-LEAN_MODULES = ["PyomaVerif.Props.C08"]
+LEAN_MODULES = ["PyomaVerif.Props.C08", "PyomaVerif.Props.C08Pipe"]
 THEOREMS = [
     "PV.C08.C08_gain_hank_mm",
     "PV.C08.C08_gain_hank_R",
@@ -18,6 +18,45 @@ THEOREMS = [
     "PV.C08.C08_unity",
     "PV.C08.C08_similarity_invariant",
     "PV.C08.C08_ratio_gain_invariant",
+    # pipeline-level covariance of the executable models (Props/C08Pipe.lean)
+    "PV.C08.C08_gain_hankel",
+    "PV.C08.C08_gain_dat",
+    "PV.C08.C08_gain_realisation_fast",
+    "PV.C08.C08_gain_realisation_legacy",
+    "PV.C08.C08_gain_shapes",
+    "PV.C08.C08_gain_ssi",
+    "PV.C08.C08_gain_ssi_R",
+    "PV.C08.C08_gain_ssi_dat",
+    "PV.C08.C08_mix_hankel",
+    "PV.C08.C08_mix_realisation_fast",
+    "PV.C08.C08_mix_realisation_legacy",
+    "PV.C08.C08_mix_ssi",
+    "PV.C08.C08_perm_ssi",
+    "PV.C08.C08_perm_shapes",
+    "PV.C08.C08_mix_ssi_R",
+    "PV.C08.C08_perm_ssi_R",
+    "PV.C08.C08_mix_dat_gram",
+    "PV.C08.C08_gain_fdd_spec",
+    "PV.C08.C08_gain_fdd_per",
+    "PV.C08.C08_gain_fdd_cor",
+    "PV.C08.C08_gain_efdd_per",
+    "PV.C08.C08_gain_efdd_cor",
+    "PV.C08.C08_mix_sd",
+    "PV.C08.C08_mix_fdd",
+    "PV.C08.C08_perm_sd",
+    "PV.C08.C08_perm_fdd",
+    "PV.C08.C08_gain_plscf_cert",
+    "PV.C08.C08_gain_plscf_order",
+    "PV.C08.C08_gain_plscf",
+    "PV.C08.C08_time_unit_ssi_model",
+    "PV.C08.C08_time_unit_ssi",
+    "PV.C08.C08_time_unit_plscf",
+    "PV.C08.C08_time_unit_plscf_run",
+    "PV.C08.C08_time_unit_fdd_per",
+    "PV.C08.C08_time_unit_fdd_cor",
+    "PV.C08.C08_time_unit_efdd_per",
+    "PV.C08.C08_time_unit_efdd_cor",
+    "PV.C08.C08_time_unit_efdd_fn",
 ]
 RULE = (
     "metamorphic oracle on the real code: every algorithm class (FDD, EFDD, FSDD, SSIcov[cov_mm, cov_R], SSIdat, pLSCF[per, cor] and "
@@ -194,6 +233,12 @@ def _single_case(ctx, kind):
     tr = ["gain", "gain2", "perm", "orth", "time"][(ctx._c08_n + SINGLE.index(kind)) % 5]
     if tr == "orth" and p["ref"] is not None:
         p["ref"] = None
+    if tr == "perm" and kind in ("SSIcov", "SSIcovR", "SSIdat") and rng.random() < 0.6:
+        # a single reference channel, at position 0 before or after the permutation ("reference indices mapped
+        # consistently" includes index 0, which is falsy)
+        p["ref"] = [0] if rng.random() < 0.5 else [rng.randrange(nch)]
+        p["ordmax"] = min(p["ordmax"], p["br"] + 1)
+        ctx.count("perm_single_reference")
     return y, fs, p, sel, tr
 
 
@@ -212,6 +257,14 @@ def _transform_single(ctx, y, fs, p, sel, tr):
     if tr == "perm":
         perm = list(range(nch))
         rng.shuffle(perm)  # new channel j = old channel perm[j]
+        if p["ref"] is not None and len(p["ref"]) == 1:
+            r = p["ref"][0]
+            if r == 0 and perm[0] == 0 and nch > 1:  # move the reference away from position 0
+                j = rng.randrange(1, nch)
+                perm[0], perm[j] = perm[j], perm[0]
+            elif r != 0 and rng.random() < 0.6:  # ... or onto position 0
+                j = perm.index(r)
+                perm[0], perm[j] = perm[j], perm[0]
         if p["ref"] is not None:
             p2["ref"] = [perm.index(r) for r in p["ref"]]
         return y[:, perm], fs, p2, sel, 1.0, (lambda v: np.asarray(v)[perm]), {"perm": perm}
